@@ -6,13 +6,14 @@
    solution of the box-constrained quadratic programme, computed over the rationals by enumeration of the active sets).
    _partial: what is proved is the soundness half: a SUCCESS of the Levenberg family is a first-order point of the
    box-constrained problem to the requested tolerance, for any cost function (so in particular for the convex
-   quadratic, whose first-order point is unique).  That SUCCESS is reached, within a number of iterations proportional to
-   the size, is a convergence-rate statement about damped Newton steps and inexact line searches in floating point; it
+   quadratic, whose first-order point is unique), and completeness in the simplest case (C19_newton_one_step_partial:
+   unbounded Levenberg-Marquardt on a quadratic reaches the stationary point in one iteration, over the reals).  That
+   SUCCESS is reached in general, within a number of iterations proportional to the size, is a convergence-rate statement about damped Newton steps and inexact line searches in floating point; it
    is explored by the check (budget 20n+50 on random strictly convex quadratics of condition number below ~10, solution
    on faces and vertices, starts inside / on faces / outside, steps that meet several faces at once) and not proved.
    Conjugate gradient and L-BFGS are not in Minim.v. *)
-From Coq Require Import ZArith List Bool.
-From Adept Require Import Scalar Minim MinimProofs.
+From Coq Require Import ZArith List Bool Reals.
+From Adept Require Import Scalar Minim MinimProofs ExprReal MinimNewton.
 Import ListNotations.
 Local Open Scope Z_scope.
 
@@ -52,6 +53,23 @@ Proof. exact (bounded_iterations O cost grad hess solve norm2 isfinite ofnat le_
 End AnyProblem.
 Print Assumptions C19_success_is_first_order_point_partial.
 Print Assumptions C19_iterations_bounded_partial.
+
+(* completeness in the simplest case, over the reals: quadratic cost 0.5 x'Hx - b'x (any square H for which the solver is
+   exact), exact gradient Hx - b and Hessian H, zero starting damping, no maximum step: the first trial point is the Newton
+   point, its gradient is exactly zero, and - if that point lowers the cost, as it does for a convex quadratic away from its
+   minimum (hypothesis) - unbounded Levenberg-Marquardt reports SUCCESS after one iteration, for every dimension n *)
+Theorem C19_newton_one_step_partial : forall (H : list (list R)) (b : list R) (n : nat),
+  length H = n -> (forall row, In row H -> length row = n) -> length b = n ->
+  forall cost solve norm2 isfinite ofnat,
+  (forall g, length g = n -> matvec H (solve H g) = g /\ length (solve H g) = n) -> norm2 (zeros n) = 0%R -> (forall v, isfinite v = true) ->
+  forall (s : settings (T:=R)) x m1 fo fi,
+  length x = n -> d_start s = 0%R -> ~ (0 < max_step s)%R -> (0 <= thr s)%R -> 1 < max_it s ->
+  ~ (norm2 (qgrad H b x) <= thr s)%R ->
+  (cost (map2 Rplus x (map Ropp (solve H (qgrad H b x)))) < cost x)%R ->
+  let r := lm_unbounded RO cost (qgrad H b) (qhess H) solve norm2 isfinite ofnat (S (S fo)) (S fi) s false x m1 in
+  r_status r = MSuccess /\ r_iter r = 1 /\ qgrad H b (r_x r) = zeros n /\ r_x r = map2 Rplus x (map Ropp (solve H (qgrad H b x))).
+Proof. exact lm_newton_one_step. Qed.
+Print Assumptions C19_newton_one_step_partial.
 
 (* a run of the model inside Coq (a test, not a proof): f(x,y) = (x-6)^2 + (y-1)^2 over the integers on [0,4] x [0,4] from
    the origin with the additive damping; the run ends with SUCCESS at (4,1): x flagged at its upper bound, where the
